@@ -1,7 +1,32 @@
 /-
 C01 — the model is the code, `readHeader`: the function as TRANSLATED from
 /repo/schemes/enc/v1/scheme.go on this run (`KitModel/Generated/CodeC01.lean`, written by
-`harness/cmd/go2lean`).
+`harness/cmd/go2lean`) — `readHeader_loop1` = `for newlines < 3 && err == nil { … }`,
+`readHeader_loop2` = the byte scan `for i = n; i < n+nn && newlines < 3; i++ { … }` — computes exactly
+what the hand-written model `Kit.Enc.readHeader` / `hdrLoop` / `hdrScan` / `hdrStep` computes, for
+every reader script and every pooled buffer of at least 65536 bytes. So `C01.readHeader_spec` and the
+other theorems about the model are theorems about the translated source text
+(`readHeader_code_spec`), and a change to the Go function changes the definition these theorems are
+about.
+
+Main results (namespace `Kit.Enc.Code`):
+* `rh_loop2_sim`                     the translated byte scan is `hdrScan` on the chunk just read
+* `rh_loop1_sim`                     the translated read loop is `hdrLoop`
+* `readHeader_code_eq_model`         result of the translated function = `hdrResult` of the model's;
+  the model's returned reader = the code's final source state with the ghost `pushback` in front
+* on the translated code alone, for an ARBITRARY reader state type and `Read` behaviour:
+  `readHeader_code_never_panics` (`…_of_fits`: only `n ≤ len(p)` is needed; two counter-witnesses),
+  `readHeader_code_lines`, `readHeader_code_header_limit` (every `Read` is issued on the window
+  `[bytes so far, 65536)`, at most 65536 bytes in total; stated on the run with logged `Read`s, which
+  is the same run: `readHeader_code_log_erase`), `readHeader_code_can_spin` (a reader that returns
+  `(0, nil)` for ever keeps the loop running: the boundary of the termination claim).
+
+Trusted here: the translator, `KitModel/Go/Sem.lean`, and the reading of the target table: the
+source is a stateful reader (`R_Read`/`R_Data`/`R_Step` on a `k`-byte window, the window being
+`(*buf)[n:65536]`), `*in = io.MultiReader(bytes.NewReader(extraBytes), *in)` is the ghost assignment
+`pushback := extraBytes`, `bytes.Clone` is the identity, `errors.New(…)` is `some "errors.New"`,
+`manifest = line` copies the VALUE of the slice (the later `Read`s write at offsets `≥ n > i` only, so
+the aliasing is harmless — that reading is the translator's, not proved here).
 -/
 import KitModel.Enc
 import KitModel.Generated.CodeC01
@@ -318,9 +343,19 @@ def H1Post (Q : σ → Int → Prop) (L : Int) (pb : List UInt8) : H1Out σ → 
   | .ok (.brk (src, manifest, mac, _, buf, n, _, _, _, _, ln, _)) =>
       lenI buf = L ∧ 0 ≤ ln ∧ ln ≤ n ∧ n ≤ 65536 ∧ Clean manifest ∧ Clean mac ∧ Q src n
 
-/-- `Q` is kept by a `Read` on the window `(*buf)[n:65536]`. -/
+/-- The half of the `io.Reader` contract `readHeader` needs in order not to panic: on a non-empty
+window of `k` bytes, `Read` does not report more than `k` bytes. (A negative count is treated like 0
+by `if nn <= 0 { continue }`.) -/
+def ReadFits (R_Read : σ → Int → Int × GoSem.Err) : Prop :=
+  ∀ s k, 0 < k → (R_Read s k).1 ≤ k
+
+theorem readFits_of_contract {R_Read : σ → Int → Int × GoSem.Err} (h : ReaderContract R_Read) : ReadFits R_Read :=
+  fun s k hk => (h s k hk).2
+
+/-- `Q` is kept by a `Read` on the window `(*buf)[n:65536]` (`n` advances by the reported count if
+it is positive). -/
 def QStep (Q : σ → Int → Prop) : Prop :=
-  ∀ s n, 0 ≤ n → n < 65536 → Q s n → Q (R_Step s (65536 - n)) (n + (R_Read s (65536 - n)).1)
+  ∀ s n, 0 ≤ n → n < 65536 → Q s n → Q (R_Step s (65536 - n)) (n + max 0 (R_Read s (65536 - n)).1)
 
 theorem ulOf_ne (n : Int) (h0 : 0 ≤ n) (h1 : n < 65536) : (n == ulOf n) = false := by
   unfold ulOf
@@ -330,7 +365,7 @@ theorem ulOf_ne (n : Int) (h0 : 0 ≤ n) (h1 : n < 65536) : (n == ulOf n) = fals
 
 theorem ulOf_full : ((65536 : Int) == ulOf 65536) = true := by decide
 
-theorem rh_loop1_inv (hR : ReaderContract R_Read) (Q : σ → Int → Prop) (hQ : QStep R_Read R_Step Q) (L : Int)
+theorem rh_loop1_inv (hR : ReadFits R_Read) (Q : σ → Int → Prop) (hQ : QStep R_Read R_Step Q) (L : Int)
     (hL1 : 65536 ≤ L) (hL2 : L ≤ maxI64) :
     ∀ (fuel : Nat) (src : σ) (pb manifest mac : List UInt8) (err : GoSem.Err) (buf : List UInt8)
       (n nn i ul newlines ln : Int) (line : List UInt8),
@@ -368,7 +403,7 @@ theorem rh_loop1_inv (hR : ReaderContract R_Read) (Q : σ → Int → Prop) (hQ 
           unfold lenI at *
           rw [slice_length _ _ _ (by omega)]; omega
         simp only [ulOf_ne n (by omega) hn', hb, Bool.not_true, Bool.false_eq_true, if_false, hk1, hk2]
-        obtain ⟨c0, c1⟩ := hR src (65536 - n) (by omega)
+        have c1 := hR src (65536 - n) (by omega)
         have hq' := hQ src n (by omega) hn' hq
         have hcl : newlines < 3 → Clean (slice (writeAt buf n 65536 (R_Data src (65536 - n))) ln n) := by
           intro h
@@ -377,13 +412,13 @@ theorem rh_loop1_inv (hR : ReaderContract R_Read) (Q : σ → Int → Prop) (hQ 
         split
         · rename_i hz
           simp only [decide_eq_true_eq] at hz
-          have hz' : (R_Read src (65536 - n)).1 = 0 := by omega
-          rw [hz', Int.add_zero] at hq'
+          rw [Int.max_eq_left hz, Int.add_zero] at hq'
           exact ih _ pb manifest mac _ _ n _ i _ newlines ln line (hlen' _) h0 h1 h2 hcl hm hk hq'
         · rename_i hz
           simp only [decide_eq_true_eq] at hz
           have hw : wrapI64 (n + (R_Read src (65536 - n)).1) = n + (R_Read src (65536 - n)).1 :=
             wrapI64_of_in (by unfold InI64; omega)
+          rw [Int.max_eq_right (by omega)] at hq'
           have h2p := rh_loop2_inv R_Read R_Data R_Step buf0 (R_Step src (65536 - n)) pb (R_Read src (65536 - n)).2
             (writeAt buf n 65536 (R_Data src (65536 - n))) n (R_Read src (65536 - n)).1 (ulOf n)
             (n + (R_Read src (65536 - n)).1) hw (by rw [hlen']; omega) (by rw [hlen']; unfold maxI64; omega)
@@ -452,7 +487,7 @@ def HdrPost (Q : σ → Int → Prop) (pb : List UInt8) : Res (HRet σ) → Prop
       (e = none → m ≠ [] ∧ c ≠ [] ∧ (10 : UInt8) ∉ m ∧ (10 : UInt8) ∉ c) ∧
       (e ≠ none → m = [] ∧ c = [] ∧ p = pb)
 
-theorem readHeader_code_post (hR : ReaderContract R_Read) (Q : σ → Int → Prop) (hQ : QStep R_Read R_Step Q)
+theorem readHeader_code_post (hR : ReadFits R_Read) (Q : σ → Int → Prop) (hQ : QStep R_Read R_Step Q)
     (hbuf : 65536 ≤ lenI buf0) (hlen : lenI buf0 ≤ maxI64) (fuel : Nat) (src : σ) (pb : List UInt8) (hq0 : Q src 0) :
     HdrPost Q pb (Kit.Generated.CodeC01.readHeader fuel R_Read R_Data R_Step buf0 src pb) := by
   rw [readHeader_eq_finish]
@@ -503,12 +538,12 @@ theorem readHeader_code_post (hR : ReaderContract R_Read) (Q : σ → Int → Pr
 
 /-- **The translated `readHeader` never panics** — `(*buf)[n:SegmentSize]`, `(*buf)[i]`,
 `(*buf)[lastNewline:i]`, `make([]byte, n-lastNewline)`, `(*buf)[lastNewline:n]` are all in range —
-for any reader state type and any `Read` behaviour within the `io.Reader` contract (`0 ≤ n ≤ len(p)`
-on a non-empty `p`; errors, data and progress arbitrary), any fuel, provided the pooled buffer holds
-`SegmentSize` = 65536 bytes (its length is a Go `int`). Both hypotheses are needed:
-`readHeader_code_panics_short_buffer`, `readHeader_code_panics_overlong_read`,
-`readHeader_code_panics_negative_read`. -/
-theorem readHeader_code_never_panics (hR : ReaderContract R_Read)
+for any reader state type and any `Read` behaviour that does not report more bytes than the window
+holds (`n ≤ len(p)` on a non-empty `p`; errors, data and progress arbitrary; the lower half
+`0 ≤ n` of the `io.Reader` contract is not needed: `nn <= 0` takes the `continue` path), any fuel,
+provided the pooled buffer holds `SegmentSize` = 65536 bytes (its length is a Go `int`). Both
+hypotheses are needed: `readHeader_code_panics_short_buffer`, `readHeader_code_panics_overlong_read`. -/
+theorem readHeader_code_never_panics_of_fits (hR : ReadFits R_Read)
     (hbuf : 65536 ≤ lenI buf0) (hlen : lenI buf0 ≤ maxI64) (fuel : Nat) (src : σ) (pb : List UInt8) :
     ∀ msg, Kit.Generated.CodeC01.readHeader fuel R_Read R_Data R_Step buf0 src pb ≠ .panic msg := by
   intro msg h
@@ -517,10 +552,16 @@ theorem readHeader_code_never_panics (hR : ReaderContract R_Read)
   rw [h] at this
   exact this
 
+/-- The same under the full reader contract `0 ≤ n ≤ len(p)` of `C01Code.lean`. -/
+theorem readHeader_code_never_panics (hR : ReaderContract R_Read)
+    (hbuf : 65536 ≤ lenI buf0) (hlen : lenI buf0 ≤ maxI64) (fuel : Nat) (src : σ) (pb : List UInt8) :
+    ∀ msg, Kit.Generated.CodeC01.readHeader fuel R_Read R_Data R_Step buf0 src pb ≠ .panic msg :=
+  readHeader_code_never_panics_of_fits R_Read R_Data R_Step buf0 (readFits_of_contract hR) hbuf hlen fuel src pb
+
 /-- **What `readHeader` returns** (same generality): on success (`err == nil`) the manifest line and
 the MAC line are non-empty and contain no line feed; on any error both are `nil` and the reader is
 not re-wrapped (`pushback` untouched). -/
-theorem readHeader_code_lines (hR : ReaderContract R_Read)
+theorem readHeader_code_lines (hR : ReadFits R_Read)
     (hbuf : 65536 ≤ lenI buf0) (hlen : lenI buf0 ≤ maxI64) (fuel : Nat) (src : σ) (pb : List UInt8)
     (m c : List UInt8) (e : GoSem.Err) (src' : σ) (pb' : List UInt8)
     (h : Kit.Generated.CodeC01.readHeader fuel R_Read R_Data R_Step buf0 src pb = .ok (m, c, e, src', pb')) :
@@ -586,7 +627,7 @@ theorem readHeader_code_header_limit (hR : ReaderContract R_Read)
       (src, []) pb = .ok (m, c, e, (src', lg), pb')) :
     WindowsFrom 0 lg ∧ 0 ≤ readTotal lg ∧ readTotal lg ≤ 65536 ∧
     (e = none → m ≠ [] ∧ c ≠ [] ∧ (10 : UInt8) ∉ m ∧ (10 : UInt8) ∉ c) := by
-  have hR' : ReaderContract (logRead R_Read) := fun s k hk => hR s.1 k hk
+  have hR' : ReadFits (logRead R_Read) := fun s k hk => (hR s.1 k hk).2
   have := readHeader_code_post (logRead R_Read) (logData R_Data) (logStep R_Read R_Step) buf0 hR'
     (fun s n => WindowsFrom 0 s.2 ∧ readTotal s.2 = n)
     (by
@@ -594,7 +635,7 @@ theorem readHeader_code_header_limit (hR : ReaderContract R_Read)
       obtain ⟨q1, q2⟩ := hq
       obtain ⟨c0, c1⟩ := hR s.1 (65536 - n) (by omega)
       refine ⟨windowsFrom_snoc _ _ _ _ q1 (by omega) (by omega) (by omega) c0 c1, ?_⟩
-      simp only [logStep, logRead, readTotal_snoc, q2])
+      simp only [logStep, logRead, readTotal_snoc, q2, Int.max_eq_right c0])
     hbuf hlen fuel (src, []) pb ⟨trivial, rfl⟩
   rw [h] at this
   obtain ⟨⟨n, h0, h1, q1, q2⟩, h2, _⟩ := this
@@ -645,6 +686,116 @@ theorem readHeader_code_can_spin (hzero : ∀ s k, R_Read s k = (0, none))
     (fun s k => by rw [hzero s k]; exact ⟨Int.le_refl _, rfl⟩) hbuf fuel src pb
 
 end general
+
+/-! ### a reader seen through a projection of its state (e.g. the logging reader without its log) -/
+
+section erase
+variable {τ σ : Type} (f : τ → σ)
+  (T_Read : τ → Int → Int × GoSem.Err) (T_Data : τ → Int → List UInt8) (T_Step : τ → Int → τ)
+  (R_Read : σ → Int → Int × GoSem.Err) (R_Data : σ → Int → List UInt8) (R_Step : σ → Int → σ)
+  (buf0 : List UInt8)
+
+def mapRet : HRet τ → HRet σ
+  | (m, c, e, s, p) => (m, c, e, f s, p)
+
+def mapH2 : H2Out τ → H2Out σ
+  | .panic m => .panic m
+  | .nofuel => .nofuel
+  | .ok (.ret r) => .ok (.ret (mapRet f r))
+  | .ok (.brk s) => .ok (.brk s)
+
+def mapH1 : H1Out τ → H1Out σ
+  | .panic m => .panic m
+  | .nofuel => .nofuel
+  | .ok (.ret r) => .ok (.ret (mapRet f r))
+  | .ok (.brk (s, rest)) => .ok (.brk (f s, rest))
+
+def mapRes : Res (HRet τ) → Res (HRet σ)
+  | .panic m => .panic m
+  | .nofuel => .nofuel
+  | .ok r => .ok (mapRet f r)
+
+theorem rh_loop2_map (t : τ) (pb : List UInt8) (err : GoSem.Err) (buf : List UInt8) (n nn ul : Int) :
+    ∀ (fuel : Nat) (manifest mac : List UInt8) (i newlines ln : Int) (line : List UInt8),
+      mapH2 f (readHeader_loop2 fuel T_Read T_Data T_Step buf0 t pb manifest mac err buf n nn i ul newlines ln line)
+        = readHeader_loop2 fuel R_Read R_Data R_Step buf0 (f t) pb manifest mac err buf n nn i ul newlines ln line := by
+  intro fuel
+  induction fuel with
+  | zero => intros; rw [readHeader_loop2, readHeader_loop2]; rfl
+  | succ fuel ih =>
+    intro manifest mac i newlines ln line
+    rw [rh_loop2_succ, rh_loop2_succ]
+    repeat' split
+    all_goals first
+      | rfl
+      | exact ih _ _ _ _ _ _
+
+theorem mapH1_bindH (x : H2Out τ) (k : H2Brk → H1Out τ) :
+    mapH1 f (bindH x k) = bindH (mapH2 f x) (fun s => mapH1 f (k s)) := by
+  match x with
+  | .panic _ => rfl
+  | .nofuel => rfl
+  | .ok (.ret _) => rfl
+  | .ok (.brk _) => rfl
+
+theorem rh_loop1_map (hRead : ∀ t k, T_Read t k = R_Read (f t) k) (hData : ∀ t k, T_Data t k = R_Data (f t) k)
+    (hStep : ∀ t k, f (T_Step t k) = R_Step (f t) k) (pb : List UInt8) :
+    ∀ (fuel : Nat) (t : τ) (manifest mac : List UInt8) (err : GoSem.Err) (buf : List UInt8)
+      (n nn i ul newlines ln : Int) (line : List UInt8),
+      mapH1 f (readHeader_loop1 fuel T_Read T_Data T_Step buf0 t pb manifest mac err buf n nn i ul newlines ln line)
+        = readHeader_loop1 fuel R_Read R_Data R_Step buf0 (f t) pb manifest mac err buf n nn i ul newlines ln line := by
+  intro fuel
+  induction fuel with
+  | zero => intros; rw [readHeader_loop1, readHeader_loop1]; rfl
+  | succ fuel ih =>
+    intro t manifest mac err buf n nn i ul newlines ln line
+    rw [rh_loop1_succ, rh_loop1_succ]
+    split
+    · unfold hdrBody
+      simp only [hRead, hData]
+      split
+      · rfl
+      · split
+        · rfl
+        · split
+          · rw [ih, hStep]
+          · rw [mapH1_bindH, rh_loop2_map f T_Read T_Data T_Step R_Read R_Data R_Step buf0, hStep]
+            congr 1
+            funext s
+            rw [ih, hStep]
+    · rfl
+
+theorem hdrFinish_map (pb : List UInt8) (x : H1Out τ) :
+    mapRes f (hdrFinish pb x) = hdrFinish pb (mapH1 f x) := by
+  match x with
+  | .panic _ => rfl
+  | .nofuel => rfl
+  | .ok (.ret _) => rfl
+  | .ok (.brk (s, manifest, mac, err, buf, n, nn, i, ul, newlines, ln, line)) =>
+    simp only [mapH1, hdrFinish]
+    repeat' split
+    all_goals rfl
+
+/-- **A run does not depend on what the reader's state carries besides what `Read` depends on**:
+if `T_*` is a reader on `τ` that behaves like `R_*` on the projection `f`, the translated
+`readHeader` on `τ`, projected, is the translated `readHeader` on `σ`. -/
+theorem readHeader_code_map (hRead : ∀ t k, T_Read t k = R_Read (f t) k) (hData : ∀ t k, T_Data t k = R_Data (f t) k)
+    (hStep : ∀ t k, f (T_Step t k) = R_Step (f t) k) (fuel : Nat) (t : τ) (pb : List UInt8) :
+    mapRes f (Kit.Generated.CodeC01.readHeader fuel T_Read T_Data T_Step buf0 t pb)
+      = Kit.Generated.CodeC01.readHeader fuel R_Read R_Data R_Step buf0 (f t) pb := by
+  rw [readHeader_eq_finish, readHeader_eq_finish, hdrFinish_map,
+    rh_loop1_map f T_Read T_Data T_Step R_Read R_Data R_Step buf0 hRead hData hStep]
+
+end erase
+
+/-- The logged run, with the log dropped, is the plain run: logging changes nothing. -/
+theorem readHeader_code_log_erase {σ : Type} (R_Read : σ → Int → Int × GoSem.Err) (R_Data : σ → Int → List UInt8)
+    (R_Step : σ → Int → σ) (buf0 : List UInt8) (fuel : Nat) (src : σ) (lg : List (Int × Int)) (pb : List UInt8) :
+    mapRes Prod.fst (Kit.Generated.CodeC01.readHeader fuel (logRead R_Read) (logData R_Data) (logStep R_Read R_Step)
+        buf0 (src, lg) pb)
+      = Kit.Generated.CodeC01.readHeader fuel R_Read R_Data R_Step buf0 src pb :=
+  readHeader_code_map Prod.fst (logRead R_Read) (logData R_Data) (logStep R_Read R_Step) R_Read R_Data R_Step buf0
+    (fun _ _ => rfl) (fun _ _ => rfl) (fun _ _ => rfl) fuel (src, lg) pb
 
 /-! ### the model is the code -/
 
@@ -1090,5 +1241,122 @@ theorem readHeader_code_spec (P : EncParams) (hs : P.scheme = schemeLit) (hm : P
   subst c2
   refine ⟨r', pb, c1, ?_, e3⟩
   simpa [Reader.stream, List.append_assoc] using e2
+
+/-- Every completed run of the translated `readHeader` on a reader within the contract is the
+projection of a logged run (`readHeader_code_log_erase`), whose log satisfies the header limit. -/
+theorem readHeader_code_header_limit_run {σ : Type} (R_Read : σ → Int → Int × GoSem.Err)
+    (R_Data : σ → Int → List UInt8) (R_Step : σ → Int → σ) (buf0 : List UInt8) (hR : ReaderContract R_Read)
+    (hbuf : 65536 ≤ lenI buf0) (hlen : lenI buf0 ≤ maxI64) (fuel : Nat) (src : σ) (pb : List UInt8)
+    (m c : List UInt8) (e : GoSem.Err) (src' : σ) (pb' : List UInt8)
+    (h : Kit.Generated.CodeC01.readHeader fuel R_Read R_Data R_Step buf0 src pb = .ok (m, c, e, src', pb')) :
+    ∃ lg, Kit.Generated.CodeC01.readHeader fuel (logRead R_Read) (logData R_Data) (logStep R_Read R_Step) buf0
+        (src, []) pb = .ok (m, c, e, (src', lg), pb') ∧
+      WindowsFrom 0 lg ∧ 0 ≤ readTotal lg ∧ readTotal lg ≤ 65536 := by
+  have he := readHeader_code_log_erase R_Read R_Data R_Step buf0 fuel src [] pb
+  rw [h] at he
+  cases hx : Kit.Generated.CodeC01.readHeader fuel (logRead R_Read) (logData R_Data) (logStep R_Read R_Step) buf0
+      (src, []) pb with
+  | panic msg => rw [hx] at he; cases he
+  | nofuel => rw [hx] at he; cases he
+  | ok v =>
+    obtain ⟨m', c', e', ⟨s', lg⟩, p'⟩ := v
+    rw [hx] at he
+    simp only [mapRes, mapRet, Res.ok.injEq, Prod.mk.injEq] at he
+    obtain ⟨rfl, rfl, rfl, rfl, rfl⟩ := he
+    obtain ⟨l1, l2, l3, _⟩ := readHeader_code_header_limit R_Read R_Data R_Step buf0 hR hbuf hlen fuel src pb
+      m' c' e' s' lg p' hx
+    exact ⟨lg, rfl, l1, l2, l3⟩
+
+/-! ### counter-witnesses and non-vacuity -/
+
+-- deciding equality of the nested result tuples needs a deeper instance search than the default
+set_option synthInstance.maxSize 2048
+
+/-- Counter-witness: a buffer shorter than `SegmentSize` panics at the first slice expression (in
+Go: only when `cap` is also too small — `Sem.lean` takes capacity = length). -/
+theorem readHeader_code_panics_short_buffer :
+    Kit.Generated.CodeC01.readHeader (σ := Unit) 5 (fun _ k => (k, none)) (fun _ _ => []) (fun s _ => s)
+      [0, 0] () [] = .panic "slice bounds out of range: (*buf)[n:SegmentSize]" := by decide +kernel
+
+/-- Counter-witness: a reader that reports more bytes than the window holds (contract violation;
+here 7 more, after a complete header) makes `(*buf)[lastNewline:n]` panic. -/
+theorem readHeader_code_panics_overlong_read :
+    Kit.Generated.CodeC01.readHeader (σ := Unit) 100 (fun _ k => (k + 7, none))
+      (fun _ _ => schemeLit ++ [10, 65, 10, 66, 10]) (fun s _ => s) (List.replicate 65536 0) () []
+      = .panic "slice bounds out of range: (*buf)[(lastNewline):n]" := by decide +kernel
+
+/-- A reader that reports `-1` (contract violation in the other direction) does not panic: it spins. -/
+example (fuel : Nat) :
+    Kit.Generated.CodeC01.readHeader (σ := Unit) fuel (fun _ _ => (-1, none)) (fun _ _ => []) (fun s _ => s)
+      (List.replicate 65536 0) () [] = .nofuel :=
+  readHeader_code_can_spin_gen _ _ _ _ (fun _ _ => ⟨by decide, rfl⟩) (by decide +kernel) fuel () []
+
+/-- What a completed run returns, without the final reader state (`Reader` has no decidable
+equality). -/
+def hdrOutcome {σ : Type} : Res (HRet σ) → Option (List UInt8 × List UInt8 × GoSem.Err × List UInt8)
+  | .ok (m, c, e, _, p) => some (m, c, e, p)
+  | _ => none
+
+/-- A 65536-byte buffer, as the pool hands out (content irrelevant). -/
+theorem pool_buffer : 65536 ≤ lenI (List.replicate 65536 (0 : UInt8)) ∧ lenI (List.replicate 65536 (0 : UInt8)) ≤ maxI64 := by
+  unfold lenI maxI64
+  rw [List.length_replicate]
+  omega
+
+/-- The translated function, evaluated: scheme line, manifest `{}`, MAC `AB`, three payload bytes,
+delivered in reads of 5, 0, 7 and the rest: the two lines, a nil error, and the three payload bytes
+pushed back. -/
+example :
+    hdrOutcome (Kit.Generated.CodeC01.readHeader 100 rRead rData rStep (List.replicate 65536 0)
+      (⟨[], schemeLit ++ [10, 123, 125, 10, 65, 66, 10, 1, 2, 3], [5, 0, 7], false, .eof⟩ : Reader) [])
+      = some ([123, 125], [65, 66], none, [1, 2, 3]) := by decide +kernel
+
+/-- The same instance through the main theorem and `C01.readHeader_spec` (hypotheses satisfiable). -/
+example : ∃ r' pb,
+    Kit.Generated.CodeC01.readHeader 65565 rRead rData rStep (List.replicate 65536 0)
+      (⟨[], schemeLit ++ [10, 123, 125, 10, 65, 66, 10, 1, 2, 3], [5, 0, 7], false, .eof⟩ : Reader) []
+      = .ok ([123, 125], [65, 66], none, r', pb) ∧ pb ++ r'.stream = [1, 2, 3] ∧ r'.term = .eof :=
+  readHeader_code_spec EncParams.generated rfl rfl _ pool_buffer.1 pool_buffer.2 [123, 125] [65, 66] [1, 2, 3]
+    ⟨by decide, by decide, by decide, by decide, by decide, by decide⟩ (by decide) _ rfl (by decide) 65565 (by decide)
+
+/-- An unsupported scheme name, through the main theorem: `(nil, nil, errors.New(…))`, nothing
+pushed back. -/
+example : ∃ r',
+    Kit.Generated.CodeC01.readHeader 65565 rRead rData rStep (List.replicate 65536 0)
+      (⟨[], [100, 10, 123, 125, 10, 65, 66, 10], [], false, .eof⟩ : Reader) []
+      = .ok ([], [], some "errors.New", r', []) := by
+  obtain ⟨r', pb, h, _⟩ := readHeader_code_eq_model_generated _ pool_buffer.1 pool_buffer.2
+    (⟨[], [100, 10, 123, 125, 10, 65, 66, 10], [], false, .eof⟩ : Reader) 65565 (by decide)
+  have hm : Kit.Enc.readHeader EncParams.generated (⟨[], [100, 10, 123, 125, 10, 65, 66, 10], [], false, .eof⟩ : Reader)
+      = .error .hdrUnsupportedScheme := by rfl
+  rw [hm] at h
+  exact ⟨r', h⟩
+
+/-- A source that fails together with the last header byte, through the main theorem: the header
+is complete, and still the source's own error is returned. -/
+example : ∃ r',
+    Kit.Generated.CodeC01.readHeader 65565 rRead rData rStep (List.replicate 65536 0)
+      (⟨[], schemeLit ++ [10, 123, 125, 10, 65, 66, 10], [], true, .failOnce⟩ : Reader) []
+      = .ok ([], [], some "src:fail", r', []) := by
+  obtain ⟨r', pb, h, _⟩ := readHeader_code_eq_model_generated _ pool_buffer.1 pool_buffer.2
+    (⟨[], schemeLit ++ [10, 123, 125, 10, 65, 66, 10], [], true, .failOnce⟩ : Reader) 65565 (by decide)
+  have hm : Kit.Enc.readHeader EncParams.generated
+      (⟨[], schemeLit ++ [10, 123, 125, 10, 65, 66, 10], [], true, .failOnce⟩ : Reader) = .error .source := by
+    rfl
+  rw [hm] at h
+  exact ⟨r', h⟩
+
+/-- Non-vacuity of the header-limit theorem: the completed run above has a log. -/
+example : ∃ r' pb lg,
+    Kit.Generated.CodeC01.readHeader 65565 (logRead rRead) (logData rData) (logStep rRead rStep) (List.replicate 65536 0)
+      ((⟨[], schemeLit ++ [10, 123, 125, 10, 65, 66, 10, 1, 2, 3], [5, 0, 7], false, .eof⟩ : Reader), []) []
+      = .ok ([123, 125], [65, 66], none, (r', lg), pb) ∧ WindowsFrom 0 lg ∧ readTotal lg ≤ 65536 := by
+  obtain ⟨r', pb, h, _⟩ := readHeader_code_spec EncParams.generated rfl rfl _ pool_buffer.1 pool_buffer.2 [123, 125] [65, 66]
+    [1, 2, 3] ⟨by decide, by decide, by decide, by decide, by decide, by decide⟩ (by decide)
+    (⟨[], schemeLit ++ [10, 123, 125, 10, 65, 66, 10, 1, 2, 3], [5, 0, 7], false, .eof⟩ : Reader) rfl (by decide) 65565
+    (by decide)
+  obtain ⟨lg, h1, h2, _, h3⟩ := readHeader_code_header_limit_run rRead rData rStep _ readerContract_rRead
+    pool_buffer.1 pool_buffer.2 65565 _ [] _ _ _ _ _ h
+  exact ⟨r', pb, lg, h1, h2, h3⟩
 
 end Kit.Enc.Code
